@@ -88,6 +88,8 @@ type Contract struct {
 	// expanded in place: process-local state that a DAG-determined result must not depend on.
 	NoRead []string
 	Implements string
+	// ProvedFor: implementations whose contract says `implements` this interface method (its clauses are proved on them)
+	ProvedFor []string
 	// GhostSets: ghost assignments executed at the function's exit, before the postconditions are checked
 	// (`ghostset G_f(x) := e [when c]`): the way an implementation maintains the ghost view its interface is
 	// specified with.
@@ -855,6 +857,9 @@ func (pc *PkgContracts) expandImplements() error {
 			continue
 		}
 		ic := pc.Contracts[c.Implements]
+		if ic != nil {
+			ic.ProvedFor = append(ic.ProvedFor, c.Key)
+		}
 		if ic == nil || !ic.NoBody {
 			return fmt.Errorf("%s:%d: %s implements %s, which has no `iface func` contract in this package", c.File, c.Line, c.Key, c.Implements)
 		}
